@@ -347,6 +347,14 @@ def _read_csv(
             _columns = columns
             rest_kwargs["usecols"] = _columns
 
+    if (
+        rest_kwargs.get("header", "infer") is None
+        and rest_kwargs.get("names", None) is None
+        and not block.strip()
+    ):
+        # Neither a header line nor a row to infer the column labels from
+        rest_kwargs["names"] = list(_columns)
+
     # Call `pandas_read_text`
     df = pandas_read_text(
         reader,
